@@ -344,6 +344,37 @@ func genC06(g *Gen) {
 		}
 		g.Case("pb", J{"ops": withEWD(g, ops)})
 	}
+	// the round trip after something went wrong: a read of the same stream that was cut short (end of stream or a
+	// failing reader, inside the header or the body), then the stream is read again from its start
+	for c := 0; c < g.N(120, 4000); c++ {
+		nf := 1 + r.Intn(3)
+		var ops []J
+		var fk []string
+		total := 0
+		for i := 0; i < nf; i++ {
+			kind := kinds[r.Intn(len(kinds))]
+			bl := pbBodyLens[r.Intn(len(pbBodyLens))]
+			ops = append(ops, pbMarshalOp(g, kind, bl))
+			fk = append(fk, kind)
+			total += 32 + bl
+		}
+		for rep := 1 + r.Intn(2); rep > 0; rep-- {
+			cut := r.Intn(total + 1)
+			if r.Intn(2) == 0 {
+				cut = 33 + r.Intn(8) // just inside the first body
+			}
+			for i := 0; i < nf; i++ {
+				ops = append(ops, J{"k": "Unmarshal", "avail": cut, "fault": []string{"EOF", "EOF", "inj"}[r.Intn(3)], "chunks": pbChunks(g), "kind": fk[i]})
+				cut = -1 // the cut applies to the stream as it is when the call starts: only once
+				break
+			}
+			ops = append(ops, J{"k": "Rewind"})
+		}
+		for i := 0; i < nf; i++ {
+			ops = append(ops, J{"k": "Unmarshal", "avail": -1, "fault": "EOF", "chunks": pbChunks(g), "kind": fk[i]})
+		}
+		g.Case("pb", J{"ops": withEWD(g, ops)})
+	}
 	for c := 0; c < g.N(700, 25000); c++ {
 		nf := 1 + r.Intn(4)
 		var ops []J
@@ -437,6 +468,13 @@ func genC07(g *Gen) {
 				ops := []J{mk,
 					{"k": "Unmarshal", "avail": k, "fault": fault, "chunks": pbChunks(g), "kind": kind},
 					{"k": "Unmarshal", "avail": -1, "fault": "EOF", "chunks": []int64{}, "kind": "raw"}}
+				if k%2 == 0 || k > 32 {
+					// ... or the stream is read again from its start: a failed Unmarshal leaves nothing behind
+					ops = []J{mk,
+						{"k": "Unmarshal", "avail": k, "fault": fault, "chunks": pbChunks(g), "kind": kind},
+						{"k": "Rewind"},
+						{"k": "Unmarshal", "avail": -1, "fault": "EOF", "chunks": pbChunks(g), "kind": kind}}
+				}
 				g.Case("pb", J{"ops": withEWD(g, ops)})
 			}
 			if k <= 40 || k%5 == 0 {
@@ -501,10 +539,14 @@ func genC07(g *Gen) {
 							fault = "inj"
 						}
 						ops = append(ops, J{"k": "Unmarshal", "avail": cut, "fault": fault, "chunks": pbChunks(g), "kind": "raw"}, J{"k": "Rewind"})
+						if len(seen)%7 == 0 { // and the whole frame in between
+							ops = append(ops, J{"k": "Unmarshal", "avail": -1, "fault": "EOF", "chunks": pbChunks(g), "kind": "raw"}, J{"k": "Rewind"})
+						}
 					}
 				}
 			}
 		}
+		ops = append(ops, J{"k": "Unmarshal", "avail": -1, "fault": "EOF", "chunks": pbChunks(g), "kind": "raw"})
 		g.Case("pb", J{"ops": withEWD(g, ops)})
 	}
 	// corrupt headers: header-size and body-size fields set to any uint64
